@@ -21,6 +21,7 @@ Contract, decomposed (a signature is sha512 of a nested encoding; sha512 collisi
 from __future__ import annotations
 
 import ast
+import hashlib
 import inspect
 import itertools
 import textwrap
@@ -270,9 +271,21 @@ def build(run):
             n += 1
         src = inspect.getsource(SIG.compute_expression_hashdata)
         tree = ast.parse(textwrap.dedent(src))
-        enc_calls = [ast.unparse(c) for c in ast.walk(tree) if isinstance(c, ast.Call) and ast.unparse(c.func) == "hashlib.sha512"]
-        if enc_calls != ["hashlib.sha512(str(data).encode('utf-8'))"]:
-            return violated(f"compute_expression_hashdata no longer hashes str(data): {enc_calls}", replay={"calls": enc_calls}, reproduced=False, backend="ast")
+        # semantic version of "each node digest is sha512(str([typecode | terminal data, child digests...]))": recompute it independently for a small DAG
+        S.set_counters({})
+        m_ = S.new_mesh()
+        f_ = ufl.Coefficient(ufl.FunctionSpace(m_, S.L(ufl.triangle, 1)))
+        e_ = ufl.sin(f_) * f_ + 2
+        ren_ = (e_ * ufl.dx)._compute_renumbering()
+        th_ = SIG.compute_terminal_hashdata([e_], ren_)
+
+        def digest(x):
+            data_ = [th_[x]] if x._ufl_is_terminal_ else [x._ufl_typecode_] + [digest(o) for o in x.ufl_operands]
+            return hashlib.sha512(str(data_).encode("utf-8")).digest()
+        if SIG.compute_expression_hashdata(e_, th_) != digest(e_):
+            return violated("compute_expression_hashdata is no longer sha512(str([typecode, child digests...])) / sha512(str([terminal data]))",
+                            replay={"expr": str(e_)}, reproduced=True, backend="exec")
+        enc_calls = ["recomputed"]
         return proved("exec+ast", vcs=n, sample=f"{n} node data: str/tuple for terminals, [int, bytes...] for operators; literal_eval(str(data)) == data")
     run.add("encoding-uniquely-decodable", decodable, kind="proof")
 
@@ -301,11 +314,21 @@ def build(run):
             got |= accessors(v)
         need = {"integrand", "ufl_domain", "integral_type", "extra_domain_integral_type_map", "subdomain_id", "metadata"}
         appended = any(isinstance(nn, ast.Call) and ast.unparse(nn.func) == "hashdata.append" and "integral_hashdata" in ast.unparse(nn) for nn in ast.walk(fdef))
-        final = [ast.unparse(nn) for nn in ast.walk(fdef) if isinstance(nn, ast.Return)]
+
+        def expand(expr, seen=()):
+            """source text of expr with local single-assignment names replaced by their definitions"""
+            class Sub(ast.NodeTransformer):
+                def visit_Name(self, node):
+                    if isinstance(node.ctx, ast.Load) and node.id in assigns and len(assigns[node.id]) == 1 and node.id not in seen and node.id != "hashdata":
+                        return ast.parse(expand(assigns[node.id][0], seen + (node.id,)), mode="eval").body
+                    return node
+            import copy as _copy
+            return ast.unparse(Sub().visit(_copy.deepcopy(expr)))
+        final = [expand(nn.value) for nn in ast.walk(fdef) if isinstance(nn, ast.Return) and nn.value is not None]
         if not need <= got:
             return violated(f"the hashed integral tuple lacks {sorted(need - got)}", replay={"missing": sorted(need - got)}, reproduced=False, backend="ast")
-        if not appended or not any("sha512(data)" in r for r in final) or "str(hashdata)" not in ast.unparse(fdef):
-            return violated("the integral tuples are not all hashed", replay={"returns": final}, reproduced=False, backend="ast")
+        if not appended or not any("sha512(" in r and "str(hashdata)" in r for r in final):
+            return violated("the list of integral tuples is not what gets hashed", replay={"returns": final}, reproduced=False, backend="ast")
         return proved("ast", vcs=len(need), sample=f"integral tuple reads {sorted(got)}; every tuple appended; str(hashdata) hashed")
     run.add("integral-tuple-contains-every-field", integral_flow, kind="proof")
 
